@@ -191,6 +191,8 @@ public:
     
     Operator& operator-=(Operator const& op)
     {
+        // A -= A: the loop below would erase the very monomial it is visiting
+        if(&op == this) { monomials.clear(); return *this; }
         bool is_new_monomial;
         monomials_map_t::iterator it;
         BOOST_FOREACH(const monomials_map_t::value_type& m, op.monomials) { 
